@@ -38,7 +38,9 @@ def handleC20 (j : Json) : Except String Json := do
     let after ← (← getArr r "after").mapM (·.getStr?)
     let key ← getStr r "result_key"
     let res ← optM r "result" parseOutcome
-    pure (({ call := call, mode := mode, before := before, after := after, result := key } : Rec20), res)
+    let rej ← getBool r "rejected"
+    pure (({ call := call, mode := mode, before := before, after := after, result := key,
+             rejected := rej } : Rec20), res)
   let holds := holdsC20 (tr.map (·.1))
   -- correspondence: every observed value of a loss call equals the model's exact value
   let bad := tr.filter fun rr =>
